@@ -273,6 +273,10 @@ Print Assumptions C20_tuple_element_kind.
 Theorem C20_pair_construct_assign_matrix : forall a b : elem, pair_traits_m a b = pair_traits_spec a b.
 Proof. exact pair_traits_agree. Qed.
 Print Assumptions C20_pair_construct_assign_matrix.
+(* is_swappable_v<pair<T1,T2>> (after the fix that constrains the non-member swap) *)
+Theorem C20_pair_swappable : forall a b, a <> ECopyOnly -> b <> ECopyOnly -> pair_swappable_m a b = pair_swappable_spec a b.
+Proof. exact pair_swappable_agrees. Qed.
+Print Assumptions C20_pair_swappable.
 Theorem C20_tuple_construct_matrix : forall es : list elem, tuple_traits_m es = tuple_traits_spec es.
 Proof. exact tuple_traits_agree. Qed.
 Print Assumptions C20_tuple_construct_matrix.
@@ -291,6 +295,10 @@ Print Assumptions C20_make_pair_member_types.
 Theorem C20_tuple_structured_binding_refuted : tuple_structured_binding_m <> tuple_structured_binding_spec.
 Proof. exact tuple_structured_binding_refuted. Qed.
 Print Assumptions C20_tuple_structured_binding_refuted.
+(* known finding KF-C20-tuple-converting-construction: no construction from tuple<UTypes...> / pair<U1, U2> *)
+Theorem C20_tuple_converting_ctor_refuted : tuple_converting_ctor_m <> tuple_converting_ctor_spec.
+Proof. exact tuple_converting_ctor_refuted. Qed.
+Print Assumptions C20_tuple_converting_ctor_refuted.
 Theorem C20_get_by_type_refuted : exists p, get_by_type_m p <> get_by_type_spec p.
 Proof. exact get_by_type_refuted. Qed.
 Print Assumptions C20_get_by_type_refuted.
